@@ -19,7 +19,8 @@ def main():
             src = fn.get('source')
             if not src or not src.get('hash') or fn.get('bounded') or not fn.get('distinct_obligations'):
                 continue
-            out.setdefault(prop, {})[fn['function']] = dict(hash=src['hash'], names=fn['distinct_obligations'])
+            out.setdefault(prop, {})[fn['function']] = dict(hash=src['hash'], names=fn['distinct_obligations'],
+                                                           alpha=src.get('alpha'), locals=src.get('locals'))
     json.dump(out, open(os.path.join(ROOT, 'baseline_counts.json'), 'w'), indent=1, sort_keys=True)
     print('baseline written:', {p: len(v) for p, v in sorted(out.items())})
 
